@@ -104,6 +104,18 @@ C35_NotShipped(locals, uploadCompacted, objs, listed, blabels, cur) ==
 C35_RecordedUnseen(uploaded, everComplete) == uploaded \ everComplete
 CompleteBlocks(objs, listed) == { b \in BlocksIn(objs) : BlockComplete(objs, listed, b) }
 
+(* ---------------- C35 extension (phase 2): removal of local data ----------------------------- *)
+(* The receiver's MultiTSDB removes local data in two ways, both guarded only by the shipper     *)
+(* file: pruning an idle tenant removes the tenant's whole directory; the local TSDB retention   *)
+(* deletes old local blocks.  Composed with "the shipper never records as uploaded a block that  *)
+(* was not seen complete in the bucket" this must give: local data is removed only after it was  *)
+(* shipped.                                                                                      *)
+(* Pruning: every non-empty block [b, level, empty, files] the directory held must be in the     *)
+(* bucket, complete, with the tenant's external labels, when the directory goes away.            *)
+C35_PrunedUnshipped(blocks, objs, listed, blabels, cur) == C35_NotShipped(blocks, TRUE, objs, listed, blabels, cur)
+(* Local retention: a non-empty local block that disappeared must have been seen complete.       *)
+C35_LocalGoneUnseen(gone, everComplete) == gone \ everComplete
+
 (* ------------------------ C35, algorithm level -------------------------- *)
 (* What Shipper.Sync writes into thanos.shipper.json when it returns nil: the local blocks it    *)
 (* uploaded or found in the bucket (= the eligible ones) and the local blocks it had recorded    *)
